@@ -245,6 +245,12 @@ def run(ctx, replay=None):
         if replay.get("case", {}).get("rawfree"):  # rewrite-free phase comparison (harness/props_ext/c02_rawfree.py)
             from harness.props_ext import c02_rawfree
             return c02_rawfree.run(ctx, replay)
+        if replay.get("case", {}).get("ovs"):  # harness/props_ext/c02_overlap.py
+            from harness.props_ext import c02_overlap
+            return c02_overlap.run(ctx, replay)
+        if replay.get("case", {}).get("crs"):  # harness/props_ext/c02_coarse.py
+            from harness.props_ext import c02_coarse
+            return c02_coarse.run(ctx, replay)
         if replay.get("case", {}).get("bwg"):  # harness/props_ext/c02_gate.py
             from harness.props_ext import c02_gate
             return c02_gate.run(ctx, replay)
@@ -290,3 +296,7 @@ def run(ctx, replay=None):
     c02_lower.run(ctx)
     from harness.props_ext import c02_gate  # generic Blockwise pushdown gates (Props/C02Gate.lean; bwg.*)
     c02_gate.run(ctx)
+    from harness.props_ext import c02_overlap  # slice through map_overlap (Props/C02Overlap.lean; ovs.*)
+    c02_overlap.run(ctx)
+    from harness.props_ext import c02_coarse  # coarse slice pushdown through adjust_chunks blockwise (Props/C02Coarse.lean; crs.*)
+    c02_coarse.run(ctx)
